@@ -40,7 +40,7 @@ class World(object):
         ("delete", [keys])           (delete_by_term on key, own commit, merge=False)
     """
 
-    def __init__(self, adocs, plan, storage="file", blocklimit=None, compound=True):
+    def __init__(self, adocs, plan, storage="file", blocklimit=None, compound=True, inlinelimit=None):
         from whoosh import index
         from whoosh.filedb.filestore import RamStorage, FileStorage
         self.adocs = adocs
@@ -54,9 +54,11 @@ class World(object):
         self.ix = self.st.create_index(self.schema)
         self.codec = None
         self.blocklimit = blocklimit
-        if blocklimit:
+        self.inlinelimit = inlinelimit
+        if blocklimit or inlinelimit:
             from whoosh.codec.whoosh3 import W3Codec
-            self.codec = lambda: W3Codec(blocklimit=blocklimit)
+            # inlinelimit > 1: short posting lists are stored inside the term info (read by a ListMatcher)
+            self.codec = lambda: W3Codec(blocklimit=blocklimit or 128, inlinelimit=inlinelimit or 1)
         self.compound = compound
         for step in plan:
             self.apply(step)
